@@ -181,7 +181,7 @@ var wsPool = []string{"", " ", " ", "  ", "\t", "\n", "\n", "\n\n", "\n\t", " \n
 
 // Perturb replaces the white space at 1..k token boundaries that do not touch a comment by a
 // drawn blank/tab/newline sequence. It returns nil when the result does not parse.
-func Perturb(t *rapid.T, in Input, k int) []byte {
+func Perturb(t *rapid.T, in Input, k int, blanksOnly bool) []byte {
 	toks := Tokens(in.Src)
 	var cuts [][2]int // gaps between two consecutive real tokens
 	for i := 0; i+1 < len(toks); i++ {
@@ -211,7 +211,14 @@ func Perturb(t *rapid.T, in Input, k int) []byte {
 	chosen := map[int]string{}
 	for i := 0; i < n; i++ {
 		c := rapid.IntRange(0, len(cuts)-1).Draw(t, "gap")
-		chosen[c] = rapid.SampledFrom(wsPool).Draw(t, "ws")
+		ws := rapid.SampledFrom(wsPool).Draw(t, "ws")
+		if blanksOnly {
+			if bytes.IndexByte(in.Src[cuts[c][0]:cuts[c][1]], '\n') >= 0 {
+				continue // keep every line break
+			}
+			ws = strings.ReplaceAll(ws, "\n", " ")
+		}
+		chosen[c] = ws
 	}
 	var b bytes.Buffer
 	last := 0
@@ -523,6 +530,9 @@ type Variant struct {
 type Policy struct {
 	Conv func(ConvClass) bool
 	Mut  func(string) bool
+	// BlanksOnly says for which origins a perturbation only inserts or removes blanks and tabs
+	// (line breaks of the source stay as they are).
+	BlanksOnly func(origin string) bool
 }
 
 // DrawVariant draws a base source and applies, each with some probability, an AST mutation,
@@ -547,7 +557,7 @@ func DrawVariant(t *rapid.T, pol Policy) Variant {
 		}
 	}
 	if rapid.IntRange(0, 9).Draw(t, "do-perturb") < 6 {
-		if out := Perturb(t, v.Input, 8); out != nil {
+		if out := Perturb(t, v.Input, 8, pol.BlanksOnly != nil && pol.BlanksOnly(v.Origin)); out != nil {
 			v.Src, v.Steps = out, append(v.Steps, "perturb")
 		}
 	}
